@@ -243,8 +243,8 @@ impl Repo {
         if !script.is_empty() { git(&self.dir, &["update-ref", "--stdin"], Some(script.as_bytes())); }
         self.current_tags = tags.to_vec();
         // conformance of tags (name -> dereferenced commit, object type)
-        let refs = git(&self.dir, &["for-each-ref", "--format=%(refname:short) %(objecttype) %(objectname) %(*objectname)", "refs/tags"], None);
-        let mut got: Vec<(String, bool, String)> = refs.lines().map(|l| { let p: Vec<&str> = l.split(' ').collect(); let ann = p.get(1) == Some(&"tag"); (p[0].to_string(), ann, if ann { p.get(3).unwrap_or(&"").to_string() } else { p.get(2).unwrap_or(&"").to_string() }) }).collect();
+        let refs = git(&self.dir, &["for-each-ref", "--format=%(refname) %(objecttype) %(objectname) %(*objectname)", "refs/tags"], None);
+        let mut got: Vec<(String, bool, String)> = refs.lines().map(|l| { let p: Vec<&str> = l.split(' ').collect(); let ann = p.get(1) == Some(&"tag"); (p[0].strip_prefix("refs/tags/").unwrap_or(p[0]).to_string(), ann, if ann { p.get(3).unwrap_or(&"").to_string() } else { p.get(2).unwrap_or(&"").to_string() }) }).collect();
         let mut want: Vec<(String, bool, String)> = tags.iter().map(|t| (t.name.clone(), t.annotated, self.shas[t.target].clone())).collect();
         got.sort(); want.sort();
         if got != want { machinery_error(&format!("conformance: tags differ: git {got:?}, model {want:?}")); }
@@ -252,15 +252,16 @@ impl Repo {
 
     pub fn set_head(&self, head: &Head) {
         match head {
-            Head::Branch(b) => { git(&self.dir, &["checkout", "-q", "-f", b], None); }
+            // not `git checkout <name>`: a branch may share its short name with a tag
+            Head::Branch(b) => { git(&self.dir, &["symbolic-ref", "HEAD", &format!("refs/heads/{b}")], None); git(&self.dir, &["reset", "-q", "--hard"], None); }
             Head::Detached(c) => { git(&self.dir, &["checkout", "-q", "-f", "--detach", &self.shas[*c]], None); }
         }
         // conformance of HEAD
         let sym = {
             let mut cmd = std::process::Command::new("git");
-            cmd.args(["symbolic-ref", "-q", "--short", "HEAD"]).current_dir(&self.dir).env_clear().stdin(std::process::Stdio::null());
+            cmd.args(["symbolic-ref", "-q", "HEAD"]).current_dir(&self.dir).env_clear().stdin(std::process::Stdio::null());
             for (k, v) in git_env() { cmd.env(k, v); }
-            cmd.output().map(|o| String::from_utf8_lossy(&o.stdout).trim().to_string()).unwrap_or_default()
+            cmd.output().map(|o| { let t = String::from_utf8_lossy(&o.stdout).trim().to_string(); t.strip_prefix("refs/heads/").map(|x| x.to_string()).unwrap_or(t) }).unwrap_or_default()
         };
         let want = match head { Head::Branch(b) => b.clone(), Head::Detached(_) => String::new() };
         if sym != want { machinery_error(&format!("conformance: HEAD is {sym:?}, model {want:?}")); }
